@@ -837,6 +837,7 @@ func main() {
 	floatProbes(e)
 	identityFreshness(e)
 	compareExtremes(e)
+	mergeIdentityCoarseHasher(e)
 	for i := 0; i < *n; i++ {
 		genCase(r, e)
 	}
